@@ -611,7 +611,10 @@ class Array(metaclass=MetaArray):
                     + cls._data_offset
                     + get_offset(index, self._strides)
                 )
-            cls._itemtype._to_buffer(self._buffer, offset, value)
+            if hasattr(cls._itemtype, "_rewrite"):  # strings keep their capacity
+                cls._itemtype._rewrite(self._buffer, offset, value)
+            else:
+                cls._itemtype._to_buffer(self._buffer, offset, value)
 
     def _update(self, value):
         if is_integer(value):
